@@ -60,3 +60,24 @@ Example C16_demo :
   (map (fun l => (l_index l, l_refcount l, l_refindex l)) links, map i_index items)
   = ([(1, 2, 0); (2, 1, 0); (3, 1, 0); (1, 2, 1)], [1; 2; 3]).
 Proof. vm_compute. reflexivity. Qed.
+
+(* ---------------- end to end, for the model of the parser with extension.Footnote
+   (model/FootnoteI.v: the definition block parser, the reference parser, the AST transformer on
+   the heap; compared with goldmark tree-for-tree and byte-for-byte on every run, case kinds
+   ParseTreeFn / ConvertFn).  For EVERY source: the footnotes of the footnote list are numbered
+   1, 2, ... in list order, and every footnote reference in the tree carries the number of a
+   footnote of the list (the numbering and target clauses of C16; the back-link clause is where
+   the recorded finding lives: a counted reference that is not rendered).  The tree is well
+   formed and the conversion returns.  (proofs/FootnoteWf*.v, 54 files, 14.9 k lines.) *)
+Require Import GM.model.Html GM.model.HtmlSpec GM.model.FootnoteI GM.proofs.ParseInv GM.proofs.FootnoteWf.
+Theorem C16_model_numbering_and_targets : forall src t, bytes_ok src -> ParseTreeFn src = Ok t ->
+  fn_items t = map Z.of_nat (seq 1 (length (fn_items t))) /\
+  Forall (fun i => In i (fn_items t)) (fn_links t).
+Proof. exact ParseTreeFn_numbering. Qed.
+Print Assumptions C16_model_numbering_and_targets.
+Theorem C16_model_tree_wf : forall src t, bytes_ok src -> ParseTreeFn src = Ok t -> wf_tree src t = true.
+Proof. exact ParseTreeFn_wf. Qed.
+Print Assumptions C16_model_tree_wf.
+Theorem C16_model_convert_total : forall c src, bytes_ok src -> exists o, ConvertModelFn c src = Ok o.
+Proof. exact ConvertModelFn_total. Qed.
+Print Assumptions C16_model_convert_total.
